@@ -236,6 +236,25 @@ Section Net.
     if nbr n target then Some target
     else nth_error (filter (fun v => nbr n v) offered) pick.
 
+  (** getNextHopRandom: [rand.Intn(len(list))] on a non-empty list, zero address on an empty one *)
+  Definition pick_of {A} (l : list A) (pick : nat) : option A :=
+    match l with [] => None | _ => nth_error l (pick mod length l) end.
+
+  (** GetNextHopRandomOrFind as used by onRelay / onRelayConnChain: first
+      lookup among the connected members of [offered1] =
+      Table.GetNextHop(target, path...); if there is none, FindRoute (a whole
+      route discovery, [find_ok] = it returned without error) and a second
+      lookup among the connected members of [offered2] = GetNextHop(target,
+      path...) on the table as the discovery left it — with the path as skip
+      list again. *)
+  Definition relay_next_find (n target : node) (offered1 : list node) (find_ok : bool) (offered2 : list node)
+             (pick1 pick2 : nat) : option node :=
+    if nbr n target then Some target
+    else match pick_of (filter (fun v => nbr n v) offered1) pick1 with
+         | Some v => Some v
+         | None => if find_ok then pick_of (filter (fun v => nbr n v) offered2) pick2 else None
+         end.
+
   (** ---- termination measure ---- *)
   Definition bigA : nat := Nat.max alpha 1.
   Fixpoint wd (d : nat) : nat :=
